@@ -348,6 +348,14 @@ const (
 	progVarX  = `[$x]`
 )
 
+var errValues = []string{"null", "false", "true", "0", `""`, "[]", "{}", `{"error":null}`, `{"error":false}`, `{"error":"x"}`, `{"a":1}`, `"` + progErrText + `"`}
+
+// how init.jq:121-129 prints the pool's error values (`.error` of an object if truthy, strings as they are, else JSON)
+var errRenderings = map[string]bool{"null": true, "false": true, "true": true, "0": true, "": true, "[]": true, "{}": true,
+	`{"error":null}`: true, `{"error":false}`: true, "x": true, `{"a":1}`: true, "s": true}
+
+func failOnNumber(v string) string { return "if type==\"number\" then error(" + v + ") else . end" }
+
 func newPool() *pool {
 	p := &pool{files: vfs{}, fkind: map[string]string{}, progs: map[string]string{}, pfile: map[string]string{}}
 	add := func(name, kind string, data []byte) {
@@ -378,6 +386,16 @@ func newPool() *pool {
 	} {
 		p.progs[text] = cls
 	}
+	// run-time failures carrying every JSON type as error value (falsy ones included): the exit status must
+	// not depend on the value (Props.C17.exit_ignores_error_value)
+	for _, v := range errValues {
+		p.progs[failOnNumber(v)] = "fnum"
+		p.progs["error("+v+")"] = "fall"
+	}
+	p.progs[failOnNumber(`"s"`)] = "fnum"
+	p.progs["null|error"] = "fall"
+	p.progs["(.missing? // null)|error"] = "fall"
+	p.progs["., (false|error)"] = "fall"
 	for name, text := range map[string]string{"p_ok.jq": ".a?", "p_fnum.jq": progFnum, "p_fall.jq": progFall2, "p_nc.jq": "(\n"} {
 		p.files[name] = vfile{data: []byte(text)}
 		p.fkind[name] = "x"
@@ -549,7 +567,8 @@ func classifyStderr(stderr []byte, inputs map[string]bool, groups map[string]boo
 			}
 		}
 		switch {
-		case strings.Contains(rest, progErrText):
+		case strings.Contains(rest, progErrText) || errRenderings[rest]:
+			// the marker text, or (no input name: null input) exactly the rendering of a pool error value
 			out = append(out, "expr")
 		case isInput && (strings.Contains(rest, errTextMissing) || strings.Contains(rest, errTextIsDir)):
 			out = append(out, "io:"+hx(name))
